@@ -174,6 +174,27 @@ partial def parseAExpr : List String → Option (AExpr × List String)
     let (l, r) ← parseAExpr r
     let (rr, r) ← parseAExpr r
     pure (.binary (readKindCs cs) op (readKindCs ocs) l rr, r)
+  | "F" :: cs :: r => do
+    let (obj, r) ← parseAExpr r
+    match r with
+    | ncs :: n :: r => pure (.field (readKindCs cs) obj (readKindCs ncs) (strOfHex n), r)
+    | _ => none
+  | "K" :: cs :: r => do
+    let (callee, r) ← parseAExpr r
+    match r with
+    | scs :: n :: r =>
+      let rec go (k : Nat) (acc : List AExpr) (r : List String) : Option (List AExpr × List String) :=
+        match k with
+        | 0 => some (acc.reverse, r)
+        | k + 1 => do
+          let (a, r) ← parseAExpr r
+          go k (a :: acc) r
+      let (args, r) ← go n.toNat! [] r
+      match r with
+      | ecs :: r =>
+        pure (.call (readKindCs cs) callee (readKindCs scs) (args.foldr .argsCons .argsNil) (readKindCs ecs), r)
+      | [] => none
+    | _ => none
   | _ => none
 
 open SamVerif.CommentQueue SamVerif.Imports SamVerif.Attach in
